@@ -32,10 +32,18 @@ type xState struct {
 	cmpA, cmpB *Lin // last compare operands (flags), nil if flags unknown
 	moved map[string]bool // pointer registers (by base param) that were advanced on this path
 	trail string
+	stored []xStore // extents stored so far on this path (for the exact-overlap rule)
+}
+
+type xStore struct {
+	param string
+	off   *Lin
+	w     int64
+	at    *Instr
 }
 
 func (s *xState) clone() *xState {
-	t := &xState{regs: map[string]*Lin{}, facts: append([]Fact(nil), s.facts...), cmpA: s.cmpA, cmpB: s.cmpB, moved: map[string]bool{}, trail: s.trail}
+	t := &xState{regs: map[string]*Lin{}, facts: append([]Fact(nil), s.facts...), cmpA: s.cmpA, cmpB: s.cmpB, moved: map[string]bool{}, trail: s.trail, stored: append([]xStore(nil), s.stored...)}
 	for k, v := range s.regs {
 		t.regs[k] = v
 	}
@@ -110,9 +118,12 @@ type xContract struct {
 	pre  []Fact          // preconditions on scalar parameters
 	consumeSet map[string][]*Lin // streamed parameter -> allowed total advances at the end of a phase
 	mayBeNil map[string]bool
+	overlap  map[string][]string // source parameter -> destination parameters that may alias it exactly (in-place operation)
 }
 
 type xResult struct {
+	overlaps  []Obligation
+	overlapChecked int
 	r         *Routine
 	accesses  map[int]*xAccess // by instruction index (worst status over states)
 	consumption []Obligation
@@ -760,6 +771,51 @@ func (a *xAnalysis) checkAccesses(s *xState, idx int) {
 			}
 		}
 		rec.off = off
+		if a.recording && a.contract != nil && a.contract.overlap != nil && !strings.HasPrefix(base, "&sym:") {
+			pname := base[1:]
+			if m.Load {
+				for _, dstP := range a.contract.overlap[pname] {
+					for _, st := range s.stored {
+						if st.param != dstP {
+							continue
+						}
+						a.res.overlapChecked++
+						// with dst == src exactly: the load must not read bytes this path has already overwritten
+						d1 := off.Sub(st.off).Sub(linConst(st.w))     // load starts at or after the end of the stored range
+						d2 := st.off.Sub(off).Sub(linConst(width)) // load ends at or before the start of the stored range
+						if !ProveNonNeg(d1, s.facts) && !ProveNonNeg(d2, s.facts) {
+							key := fmt.Sprintf("%s/%s: load of %s after store to %s", a.r.Arch, a.r.Name, pname, dstP)
+							dup := false
+							for _, o := range a.res.overlaps {
+								if o.Key == key {
+									dup = true
+								}
+							}
+							if !dup {
+								a.res.overlaps = append(a.res.overlaps, Obligation{Rule: "LOAD-BEFORE-STORE", Key: key, Pos: in.Pos, Status: VIOLATED,
+									Detail: fmt.Sprintf("%s reads bytes [%s,+%d) of %s after %s (%s) stored bytes [%s,+%d) of %s: with dst aliasing the input exactly the input is clobbered before it is read", in.Raw, off.String(), width, pname, st.at.Raw, st.at.Pos, st.off.String(), st.w, dstP)})
+							}
+						}
+					}
+				}
+			}
+			if m.Store {
+				isDst := false
+				for _, ds := range a.contract.overlap {
+					for _, d := range ds {
+						if d == pname {
+							isDst = true
+						}
+					}
+				}
+				if isDst {
+					s.stored = append(s.stored, xStore{param: pname, off: off, w: width, at: in})
+					if len(s.stored) > 96 {
+						s.stored = s.stored[len(s.stored)-96:]
+					}
+				}
+			}
+		}
 		lo := Decide(off, s.facts)
 		hi := Decide(size.Sub(off).Sub(linConst(width)), s.facts)
 		st := 1
@@ -820,6 +876,10 @@ func (a *xAnalysis) addState(m map[int][]*xState, b int, s *xState) {
 			}
 		}
 		o.facts = keep
+		o.stored = append(o.stored, s.stored...)
+		if len(o.stored) > 96 {
+			o.stored = o.stored[len(o.stored)-96:]
+		}
 		return
 	}
 	m[b] = append(m[b], s)
